@@ -285,6 +285,11 @@ impl<'a> SendStream<'a> {
     /// Check if this stream was stopped, get the reason if it was
     pub fn stopped(&self) -> Result<Option<VarInt>, ClosedStream> {
         match self.state.send.get(&self.id).as_ref() {
+            // Once we've reset a stream it's closed as far as the application is concerned, even
+            // while the reset is still unacknowledged; no event reports that acknowledgement
+            Some(Some(s)) if s.is_reset() && s.stop_reason.is_none() => {
+                Err(ClosedStream { _private: () })
+            }
             Some(Some(s)) => Ok(s.stop_reason),
             Some(None) => Ok(None),
             None => Err(ClosedStream { _private: () }),
